@@ -40,7 +40,7 @@ pub fn decode(mut src: &[u8]) -> io::Result<Vec<u8>> {
             last_len = record.len;
 
             if record.is_duplicate {
-                copy_record(&mut dst, i, record.len);
+                copy_record(&mut dst, i, record.len)?;
 
                 i += record.len;
                 record.pos = 0;
@@ -54,8 +54,12 @@ pub fn decode(mut src: &[u8]) -> io::Result<Vec<u8>> {
         let param = &mut params.params[x];
         let q = models.qual[usize::from(ctx)].decode(&mut src, &mut range_coder)?;
 
-        let j = usize::from(q);
-        dst[i] = param.quality_map().map(|map| map[j]).unwrap_or(q);
+        dst[i] = match param.quality_map() {
+            Some(map) => map.get(usize::from(q)).copied().ok_or_else(|| {
+                io::Error::new(io::ErrorKind::InvalidData, "invalid quality map index")
+            })?,
+            None => q,
+        };
 
         ctx = fqz_update_context(param, q, &mut record);
 
@@ -64,7 +68,7 @@ pub fn decode(mut src: &[u8]) -> io::Result<Vec<u8>> {
     }
 
     if params.gflags.has_reversed_values() {
-        reverse_qualities(&mut dst, uncompressed_size, &rev_len);
+        reverse_qualities(&mut dst, uncompressed_size, &rev_len)?;
     }
 
     Ok(dst)
@@ -106,7 +110,10 @@ fn fqz_new_record(
         }
     }
 
-    let param = &parameters.params[x];
+    let param = parameters
+        .params
+        .get(x)
+        .ok_or_else(|| io::Error::new(io::ErrorKind::InvalidData, "invalid parameter index"))?;
 
     if !param.flags().is_fixed_length() || record.rec_no == 0 {
         last_len = read_length(src, range_coder, models)?;
@@ -181,38 +188,56 @@ fn read_length(
         .map_err(|e| io::Error::new(io::ErrorKind::InvalidData, e))
 }
 
-fn reverse_qualities(qual: &mut [u8], qual_len: usize, rev_len: &[(bool, usize)]) {
+fn reverse_qualities(
+    qual: &mut [u8],
+    qual_len: usize,
+    rev_len: &[(bool, usize)],
+) -> io::Result<()> {
     let mut rec = 0;
     let mut i = 0;
 
     while i < qual_len {
-        let (rev, len) = rev_len[rec];
+        let (rev, len) = rev_len
+            .get(rec)
+            .copied()
+            .ok_or_else(|| io::Error::new(io::ErrorKind::InvalidData, "missing record length"))?;
 
         if rev {
-            let mut j = 0;
-            let mut k = len - 1;
+            let record = i
+                .checked_add(len)
+                .and_then(|end| qual.get_mut(i..end))
+                .ok_or_else(|| {
+                    io::Error::new(io::ErrorKind::InvalidData, "invalid record length")
+                })?;
 
-            while j < k {
-                qual.swap(i + j, i + k);
-                j += 1;
-                k -= 1;
-            }
+            record.reverse();
         }
 
         i += len;
         rec += 1;
     }
+
+    Ok(())
 }
 
 fn decode_bool(n: u8) -> bool {
     n != 0
 }
 
-fn copy_record(buf: &mut [u8], pos: usize, prev_len: usize) {
+fn copy_record(buf: &mut [u8], pos: usize, prev_len: usize) -> io::Result<()> {
     let (src, dst) = buf.split_at_mut(pos);
-    let start = src.len() - prev_len;
-    let prev_record = &src[start..];
-    dst[..prev_len].copy_from_slice(prev_record);
+
+    let prev_record = src
+        .len()
+        .checked_sub(prev_len)
+        .map(|start| &src[start..])
+        .ok_or_else(|| io::Error::new(io::ErrorKind::InvalidData, "invalid duplicate record"))?;
+
+    dst.get_mut(..prev_len)
+        .ok_or_else(|| io::Error::new(io::ErrorKind::InvalidData, "invalid record length"))?
+        .copy_from_slice(prev_record);
+
+    Ok(())
 }
 
 #[cfg(test)]
